@@ -8,29 +8,31 @@ From V Require Import IeeeSoft IeeeSoftProof IeeeFlocqProof.
 Open Scope Z_scope.
 
 (* ------------------------------------------------------------------------------------------------------------------
-   The property at full strength, for a variant of the code: whatever libm does within its contract (exponent estimate off
-   by at most one, pow(2,e) exact), on a host with IEEE 754 float/double objects and in either mode (native / software),
+   The property at full strength, for a variant of the code: whatever libm does within its contract (exponent estimate
+   between one too low and two too high, pow(2,e) exact), on a host with IEEE 754 float/double objects and in either mode (native / software),
    encoding any non-NaN float or double object returns its IEEE 754 bit pattern, decoding any pattern returns the object
    with that pattern (NaN patterns: a NaN), and when the five compliance sub-checks pass the native mode is selected. *)
 Definition C19_full_statement (fixsub fixsel : bool) : Prop :=
-  forall ilog2 pow2 pow2s, libm_ok ilog2 pow2 pow2s ->
+  forall ilog2f ilog2d pow2 pow2f,
+  libm_ok fmt32 ilog2f pow2 pow2f ->          (* logf, pow, powf *)
+  libm_ok fmt64 ilog2d pow2 pow2 ->           (* log, pow *)
   (forall c_use img, 0 <= img < 2 ^ 32 -> is_nan _ _ (b32_of_bits img) = false ->
-     ieee_encode ilog2 pow2 fmt32 fixsub c_use host32 img = Some img) /\
+     ieee_encode ilog2f pow2 fmt32 fixsub c_use host32 img = Some img) /\
   (forall c_use img, 0 <= img < 2 ^ 64 -> is_nan _ _ (b64_of_bits img) = false ->
-     ieee_encode ilog2 pow2 fmt64 fixsub c_use host64 img = Some img) /\
+     ieee_encode ilog2d pow2 fmt64 fixsub c_use host64 img = Some img) /\
   (forall c_use bits, 0 <= bits < 2 ^ 32 ->
-     ieee_decode pow2 pow2s fmt32 c_use host32 bits = Some (fval_of_b32 (b32_of_bits bits))) /\
+     ieee_decode pow2 pow2f fmt32 c_use host32 bits = Some (fval_of_b32 (b32_of_bits bits))) /\
   (forall c_use bits, 0 <= bits < 2 ^ 64 ->
-     ieee_decode pow2 pow2s fmt64 c_use host64 bits = Some (fval_of_b64 (b64_of_bits bits))) /\
+     ieee_decode pow2 pow2 fmt64 c_use host64 bits = Some (fval_of_b64 (b64_of_bits bits))) /\
   (forall use, use_C_ieee754 fixsel 0 true true true true true use = (1, use)).
 
 Theorem C19_full_repaired : C19_full_statement true true.
 Proof.
-  intros ilog2 pow2 pow2s H. split; [| split; [| split; [| split]]].
-  - intros; apply (any_mode_encode32 ilog2 pow2 pow2s H); assumption.
-  - intros; apply (any_mode_encode64 ilog2 pow2 pow2s H); assumption.
-  - intros; apply (any_mode_decode32 ilog2 pow2 pow2s H); assumption.
-  - intros; apply (any_mode_decode64 ilog2 pow2 pow2s H); assumption.
+  intros ilog2f ilog2d pow2 pow2f H32 H64. split; [| split; [| split; [| split]]].
+  - intros; apply (any_mode_encode32 ilog2f pow2 pow2f H32); assumption.
+  - intros; apply (any_mode_encode64 ilog2d pow2 pow2 H64); assumption.
+  - intros; apply (any_mode_decode32 ilog2f pow2 pow2f H32); assumption.
+  - intros; apply (any_mode_decode64 ilog2d pow2 pow2 H64); assumption.
   - intros use. exact (proj2 (selection_fixed use)).
 Qed.
 Print Assumptions C19_full_repaired.
@@ -39,54 +41,53 @@ Print Assumptions C19_full_repaired.
 Theorem C19_full_cur_refuted : ~ C19_full_statement false false /\ ~ C19_full_statement false true /\ ~ C19_full_statement true false.
 Proof.
   assert (Hsub : forall fixsel, ~ C19_full_statement false fixsel).
-  { intros fixsel H. destruct (H _ _ _ libm_exact_ok) as (He & _).
+  { intros fixsel H. destruct (H _ _ _ _ (libm_exact_ok fmt32 fmt32_ok) (libm_exact_ok fmt64 fmt64_ok)) as (He & _).
     specialize (He false 1 ltac:(split; [discriminate | reflexivity]) eq_refl). vm_compute in He. discriminate. }
   split; [apply Hsub | split; [apply Hsub |]].
-  intros H. destruct (H _ _ _ libm_exact_ok) as (_ & _ & _ & _ & Hs). specialize (Hs true). discriminate.
+  intros H. destruct (H _ _ _ _ (libm_exact_ok fmt32 fmt32_ok) (libm_exact_ok fmt64 fmt64_ok)) as (_ & _ & _ & _ & Hs).
+  specialize (Hs true). discriminate.
 Qed.
 Print Assumptions C19_full_cur_refuted.
 
 (* ------------------------------------------------------------------------------------------------------------------ decoder *)
-Theorem C19_decode32 : forall ilog2 pow2 pow2s, libm_ok ilog2 pow2 pow2s ->
-  forall bits, 0 <= bits < 2 ^ 32 -> soft_decode pow2 pow2s fmt32 bits = Some (fval_of_b32 (b32_of_bits bits)).
-Proof. exact decode32. Qed.
-Print Assumptions C19_decode32.
-Theorem C19_decode64 : forall ilog2 pow2 pow2s, libm_ok ilog2 pow2 pow2s ->
-  forall bits, 0 <= bits < 2 ^ 64 -> soft_decode pow2 pow2s fmt64 bits = Some (fval_of_b64 (b64_of_bits bits)).
-Proof. exact decode64. Qed.
-Print Assumptions C19_decode64.
+(* every pattern, NaN patterns included (they decode to a NaN) *)
+Theorem C19_decode :
+  (forall ilog2 pow2 pow2s, libm_ok fmt32 ilog2 pow2 pow2s ->
+   forall bits, 0 <= bits < 2 ^ 32 -> soft_decode pow2 pow2s fmt32 bits = Some (fval_of_b32 (b32_of_bits bits))) /\
+  (forall ilog2 pow2 pow2s, libm_ok fmt64 ilog2 pow2 pow2s ->
+   forall bits, 0 <= bits < 2 ^ 64 -> soft_decode pow2 pow2s fmt64 bits = Some (fval_of_b64 (b64_of_bits bits))).
+Proof. split; [exact decode32 | exact decode64]. Qed.
+Print Assumptions C19_decode.
 
 (* ------------------------------------------------------------------------------------------------------------------ encoder *)
 (* repaired encoder: every finite value (normal AND subnormal), both zeros, both infinities; the estimate of the exponent may
-   be off by one in either direction (libm_ok) *)
-Theorem C19_encode32 : forall ilog2 pow2 pow2s, libm_ok ilog2 pow2 pow2s ->
-  forall x : binary32, is_nan _ _ x = false -> soft_encode ilog2 pow2 fmt32 true (fval_of_b32 x) = Some (bits_of_b32 x).
-Proof. exact encode32. Qed.
-Print Assumptions C19_encode32.
-Theorem C19_encode64 : forall ilog2 pow2 pow2s, libm_ok ilog2 pow2 pow2s ->
-  forall x : binary64, is_nan _ _ x = false -> soft_encode ilog2 pow2 fmt64 true (fval_of_b64 x) = Some (bits_of_b64 x).
-Proof. exact encode64. Qed.
-Print Assumptions C19_encode64.
+   be one too low, one or two too high (libm_ok) *)
+Theorem C19_encode :
+  (forall ilog2 pow2 pow2s, libm_ok fmt32 ilog2 pow2 pow2s ->
+   forall x : binary32, is_nan _ _ x = false -> soft_encode ilog2 pow2 fmt32 true (fval_of_b32 x) = Some (bits_of_b32 x)) /\
+  (forall ilog2 pow2 pow2s, libm_ok fmt64 ilog2 pow2 pow2s ->
+   forall x : binary64, is_nan _ _ x = false -> soft_encode ilog2 pow2 fmt64 true (fval_of_b64 x) = Some (bits_of_b64 x)).
+Proof. split; [exact encode32 | exact encode64]. Qed.
+Print Assumptions C19_encode.
 
 (* encoder of the unchanged tree: correct except on subnormals whose leading fraction bit is 0 ... *)
-Theorem C19_encode32_cur_partial : forall ilog2 pow2 pow2s, libm_ok ilog2 pow2 pow2s ->
-  forall x : binary32, is_nan _ _ x = false -> not_deep 23 (B2FF _ _ x) ->
-  soft_encode ilog2 pow2 fmt32 false (fval_of_b32 x) = Some (bits_of_b32 x).
-Proof. exact encode32_cur_partial. Qed.
-Print Assumptions C19_encode32_cur_partial.
-Theorem C19_encode64_cur_partial : forall ilog2 pow2 pow2s, libm_ok ilog2 pow2 pow2s ->
-  forall x : binary64, is_nan _ _ x = false -> not_deep 52 (B2FF _ _ x) ->
-  soft_encode ilog2 pow2 fmt64 false (fval_of_b64 x) = Some (bits_of_b64 x).
-Proof. exact encode64_cur_partial. Qed.
-Print Assumptions C19_encode64_cur_partial.
+Theorem C19_encode_cur_partial :
+  (forall ilog2 pow2 pow2s, libm_ok fmt32 ilog2 pow2 pow2s ->
+   forall x : binary32, is_nan _ _ x = false -> not_deep 23 (B2FF _ _ x) ->
+   soft_encode ilog2 pow2 fmt32 false (fval_of_b32 x) = Some (bits_of_b32 x)) /\
+  (forall ilog2 pow2 pow2s, libm_ok fmt64 ilog2 pow2 pow2s ->
+   forall x : binary64, is_nan _ _ x = false -> not_deep 52 (B2FF _ _ x) ->
+   soft_encode ilog2 pow2 fmt64 false (fval_of_b64 x) = Some (bits_of_b64 x)).
+Proof. split; [exact encode32_cur_partial | exact encode64_cur_partial]. Qed.
+Print Assumptions C19_encode_cur_partial.
 (* ... and wrong on every one of those: the fraction comes out shifted left until its leading 1 is the top fraction bit *)
-Theorem C19_encode32_cur_refuted : forall ilog2 pow2 pow2s, libm_ok ilog2 pow2 pow2s ->
+Theorem C19_encode32_cur_refuted : forall ilog2 pow2 pow2s, libm_ok fmt32 ilog2 pow2 pow2s ->
   forall s m, 0 < m < 2 ^ 22 ->
   soft_encode ilog2 pow2 fmt32 false (FFin s m (-149)) = Some (join fmt32 s 0 (m * 2 ^ (22 - Z.log2 m))) /\
   soft_encode ilog2 pow2 fmt32 false (FFin s m (-149)) <> Some (spec_encode fmt32 (FFin s m (-149))).
 Proof. exact encode32_cur_deep. Qed.
 Print Assumptions C19_encode32_cur_refuted.
-Theorem C19_encode64_cur_refuted : forall ilog2 pow2 pow2s, libm_ok ilog2 pow2 pow2s ->
+Theorem C19_encode64_cur_refuted : forall ilog2 pow2 pow2s, libm_ok fmt64 ilog2 pow2 pow2s ->
   forall s m, 0 < m < 2 ^ 51 ->
   soft_encode ilog2 pow2 fmt64 false (FFin s m (-1074)) = Some (join fmt64 s 0 (m * 2 ^ (51 - Z.log2 m))) /\
   soft_encode ilog2 pow2 fmt64 false (FFin s m (-1074)) <> Some (spec_encode fmt64 (FFin s m (-1074))).
@@ -103,28 +104,25 @@ Proof. exact encode_cur_witnesses. Qed.
 Print Assumptions C19_encode_cur_witnesses.
 
 (* ------------------------------------------------------------------------------------------------------------------ round trips *)
-Theorem C19_roundtrip_value32 : forall ilog2 pow2 pow2s, libm_ok ilog2 pow2 pow2s ->
-  forall x : binary32, is_nan _ _ x = false ->
-  exists b, soft_encode ilog2 pow2 fmt32 true (fval_of_b32 x) = Some b /\ 0 <= b < 2 ^ 32 /\
-            soft_decode pow2 pow2s fmt32 b = Some (fval_of_b32 x).
-Proof. exact roundtrip_value32. Qed.
-Print Assumptions C19_roundtrip_value32.
-Theorem C19_roundtrip_value64 : forall ilog2 pow2 pow2s, libm_ok ilog2 pow2 pow2s ->
-  forall x : binary64, is_nan _ _ x = false ->
-  exists b, soft_encode ilog2 pow2 fmt64 true (fval_of_b64 x) = Some b /\ 0 <= b < 2 ^ 64 /\
-            soft_decode pow2 pow2s fmt64 b = Some (fval_of_b64 x).
-Proof. exact roundtrip_value64. Qed.
-Print Assumptions C19_roundtrip_value64.
-Theorem C19_roundtrip_bits32 : forall ilog2 pow2 pow2s, libm_ok ilog2 pow2 pow2s ->
-  forall b, 0 <= b < 2 ^ 32 -> is_nan _ _ (b32_of_bits b) = false ->
-  exists v, soft_decode pow2 pow2s fmt32 b = Some v /\ soft_encode ilog2 pow2 fmt32 true v = Some b.
-Proof. exact roundtrip_bits32. Qed.
-Print Assumptions C19_roundtrip_bits32.
-Theorem C19_roundtrip_bits64 : forall ilog2 pow2 pow2s, libm_ok ilog2 pow2 pow2s ->
-  forall b, 0 <= b < 2 ^ 64 -> is_nan _ _ (b64_of_bits b) = false ->
-  exists v, soft_decode pow2 pow2s fmt64 b = Some v /\ soft_encode ilog2 pow2 fmt64 true v = Some b.
-Proof. exact roundtrip_bits64. Qed.
-Print Assumptions C19_roundtrip_bits64.
+(* software codec with the repaired encoder: decode (encode x) = x for every non-NaN x, encode (decode b) = b for every
+   non-NaN pattern b *)
+Theorem C19_roundtrip :
+  (forall ilog2 pow2 pow2s, libm_ok fmt32 ilog2 pow2 pow2s ->
+   forall x : binary32, is_nan _ _ x = false ->
+   exists b, soft_encode ilog2 pow2 fmt32 true (fval_of_b32 x) = Some b /\ 0 <= b < 2 ^ 32 /\
+             soft_decode pow2 pow2s fmt32 b = Some (fval_of_b32 x)) /\
+  (forall ilog2 pow2 pow2s, libm_ok fmt64 ilog2 pow2 pow2s ->
+   forall x : binary64, is_nan _ _ x = false ->
+   exists b, soft_encode ilog2 pow2 fmt64 true (fval_of_b64 x) = Some b /\ 0 <= b < 2 ^ 64 /\
+             soft_decode pow2 pow2s fmt64 b = Some (fval_of_b64 x)) /\
+  (forall ilog2 pow2 pow2s, libm_ok fmt32 ilog2 pow2 pow2s ->
+   forall b, 0 <= b < 2 ^ 32 -> is_nan _ _ (b32_of_bits b) = false ->
+   exists v, soft_decode pow2 pow2s fmt32 b = Some v /\ soft_encode ilog2 pow2 fmt32 true v = Some b) /\
+  (forall ilog2 pow2 pow2s, libm_ok fmt64 ilog2 pow2 pow2s ->
+   forall b, 0 <= b < 2 ^ 64 -> is_nan _ _ (b64_of_bits b) = false ->
+   exists v, soft_decode pow2 pow2s fmt64 b = Some v /\ soft_encode ilog2 pow2 fmt64 true v = Some b).
+Proof. split; [exact roundtrip_value32 | split; [exact roundtrip_value64 | split; [exact roundtrip_bits32 | exact roundtrip_bits64]]]. Qed.
+Print Assumptions C19_roundtrip.
 
 (* ------------------------------------------------------------------------------------------------------------------ native path, selection *)
 Theorem C19_native_identity : forall ilog2 pow2 pow2s f fixsub host img,
@@ -158,7 +156,7 @@ Theorem C19_layout_decode : forall pow2 pow2s f, fmt_ok f ->
   forall bits, 0 <= bits < 2 ^ (fb f + eb f + 1) -> soft_decode pow2 pow2s f bits = Some (spec_decode f bits).
 Proof. exact soft_decode_correct. Qed.
 Print Assumptions C19_layout_decode.
-Theorem C19_layout_encode : forall ilog2 pow2 f, fmt_ok f -> ilog2_ok ilog2 -> pow2_ok pow2 (emin f) (emax f) ->
+Theorem C19_layout_encode : forall ilog2 pow2 f, fmt_ok f -> ilog2_ok f ilog2 -> pow2_ok pow2 (emin f) (emax f) ->
   forall fixsub x, enc_ok f fixsub x -> soft_encode ilog2 pow2 f fixsub x = Some (spec_encode f x).
 Proof. exact soft_encode_correct. Qed.
 Print Assumptions C19_layout_encode.
@@ -176,14 +174,18 @@ Proof. repeat split; [exact b32_bridge | exact b64_bridge | exact b32_bridge_enc
 Print Assumptions C19_layout_is_flocq.
 
 (* ------------------------------------------------------------------------------------------------------------------ hypotheses are satisfiable *)
-Example C19_libm_contract_satisfiable : libm_ok ilog2_exact pow2_exact pow2_exact /\ libm_ok ilog2_exact pow2_double pow2_double.
-Proof. split; [exact libm_exact_ok |]. split; [exact ilog2_exact_ok | split; apply pow2_double_ok]. Qed.
-Example C19_estimates_off_by_one_admissible :
-  libm_ok (fun x => ilog2_exact x + 1) pow2_double pow2_double /\ libm_ok (fun x => ilog2_exact x - 1) pow2_double pow2_double.
+Example C19_libm_contract_satisfiable :
+  libm_ok fmt32 ilog2_exact pow2_exact pow2_exact /\ libm_ok fmt64 ilog2_exact pow2_double pow2_double.
+Proof. split; [exact (libm_exact_ok fmt32 fmt32_ok) |]. split; [exact (ilog2_exact_ok fmt64 fmt64_ok) | split; apply pow2_double_ok]. Qed.
+(* the estimate may be one too low everywhere, one too high everywhere, or two too high on every normal number *)
+Example C19_estimates_off_admissible : forall f,
+  ilog2_ok f (fun x => ilog2_exact x - 1) /\ ilog2_ok f (fun x => ilog2_exact x + 1) /\
+  ilog2_ok f (fun x => if ilog2_exact x <? emin f then ilog2_exact x + 1 else ilog2_exact x + 2).
 Proof.
-  split; (split; [| split; apply pow2_double_ok]).
-  - apply (ilog2_off_ok 1). split; discriminate.
-  - apply (ilog2_off_ok (-1)). split; discriminate.
+  intros f. split; [| split].
+  - apply (ilog2_off_ok f (-1)). split; discriminate.
+  - apply (ilog2_off_ok f 1). split; discriminate.
+  - apply ilog2_off2_ok.
 Qed.
 Example C19_formats_ok : fmt_ok fmt32 /\ fmt_ok fmt64.
 Proof. split; [exact fmt32_ok | exact fmt64_ok]. Qed.
